@@ -114,19 +114,16 @@ theorem value_op_safe (ρ : Nat → Nat) (h : Heap δ) (S : List Nat)
 
 /-- Readers (`getPayload` / `_createDefault(addtorank=False)`, non-reference iteration,
     co-iteration, `==`, counting, shape queries, printing, dumping, footprints, rendering) only
-    allocate temporaries: a history that never writes an object of the operand's closed set
-    leaves the operand's view from every root exactly as it was. -/
+    allocate temporaries (which may well reference the operand's objects): ANY history that never
+    writes an object of the operand's closed set leaves the operand's view from every root exactly
+    as it was. -/
 theorem reader_pure (h : Heap δ) (S : List Nat) (hc : closedB h S = true) (ws : List (Step δ))
-    (htmp : ∀ w ∈ ws, w.side = true) (hv : validB ⟨h, S, []⟩ ws = true)
-    (r : Nat) (hr : r ∈ S) (n : Nat) :
-    view (runAll ⟨h, S, []⟩ ws).heap n r = view h n r := by
-  have hsep : sepB (⟨h, S, []⟩ : St δ) = true := by
-    simp only [sepB, Bool.and_eq_true]
-    refine ⟨⟨hc, ?_⟩, ?_⟩
-    · simp [closedB]
-    · simp [disjointB]
-  exact heap_frame_silent _ ws hsep hv false (fun w hw => by rw [htmp w hw]; simp) r
-    (by simpa [St.mine] using hr) n
+    (hout : ∀ w ∈ ws, w.addr ∉ S) (r : Nat) (hr : r ∈ S) (n : Nat) :
+    view (writeAll h ws) n r = view h n r := by
+  symm
+  apply view_congr h (writeAll h ws) S ((closedB_iff h S).1 hc) _ n r hr
+  intro x hx
+  exact (writeAll_outside S ws h h hout (fun _ _ => rfl) x hx).symm
 
 end
 
@@ -186,10 +183,12 @@ example : stepOkB ⟨c10_exAlias, reachList c10_exAlias 5 [0], reachList c10_exA
     ⟨true, 3, ⟨"Payload 99", []⟩⟩ = false := by decide
 example : view (set c10_exAlias 3 ⟨"Payload 99", []⟩) 4 0 ≠ view c10_exAlias 4 0 := by decide
 
-/-- a reader that allocates two temporaries (a default box and a default fiber pointing to it) -/
-example : view (runAll ⟨c10_exHeap, c10_exS, []⟩
-    [⟨true, 30, ⟨"Payload 0", []⟩⟩, ⟨true, 31, ⟨"Fiber", [30]⟩⟩]).heap 4 0 = view c10_exHeap 4 0 :=
-  reader_pure c10_exHeap c10_exS (by decide) _ (by decide) (by decide) 0 (by decide) 4
+/-- a reader that allocates two temporaries: a default box, and a default fiber that points to it
+    and (like `_createDefault(addtorank=False)`, whose fiber's owner is the operand's rank) to an
+    object of the operand -/
+example : view (writeAll c10_exHeap
+    [⟨true, 30, ⟨"Payload 0", []⟩⟩, ⟨true, 31, ⟨"Fiber", [30, 2]⟩⟩]) 4 0 = view c10_exHeap 4 0 :=
+  reader_pure c10_exHeap c10_exS (by decide) _ (by decide) 0 (by decide) 4
 
 end examples
 end Ft
